@@ -972,12 +972,14 @@ structure Result where
   /-- per chunk: (address, announced size, actual length) -/
   layout : List (Int × Nat × Nat)
   note : String
+  /-- every key of the symbol table (qualified names), in definition order -/
+  keys : List String := []
 
 def hasError (ds : List FDiag) : Bool := ds.any (fun d => d.sev != "warning")
 
 /-- `parse` all files, `compile_and_link_files` -/
 def assemble (world : World) (cs : Charset) (mains : List String) : Result :=
-  let fail (oc : String) (ds : List FDiag) (note : String) : Result := ⟨oc, 0, [], ds, [], [], [], note⟩
+  let fail (oc : String) (ds : List FDiag) (note : String) : Result := ⟨oc, 0, [], ds, [], [], [], note, []⟩
   -- parse
   let parsed := mains.map (fun f =>
     let text := ((world.files.find? (fun (x : String × String) => x.1 == f)).map (·.2)).getD ""
@@ -1052,8 +1054,8 @@ def assemble (world : World) (cs : Charset) (mains : List String) : Result :=
           match run.run {} with
           | .ok ((code, layout, syms), st) =>
             let ds := ediags ++ ldiags ++ st.errs.toList
-            if hasError ds then ⟨"failed", base, [], ds, [], es.emitted, layout, ""⟩
-            else ⟨"ok", base, code, ds, syms, es.emitted, layout, ""⟩
+            if hasError ds then ⟨"failed", base, [], ds, [], es.emitted, layout, "", []⟩
+            else { (⟨"ok", base, code, ds, syms, es.emitted, layout, "", []⟩ : Result) with keys := es.syms.map (·.1) }
           | .error (.abort, st) => fail "failed" (ediags ++ ldiags ++ st.errs.toList) "aborted"
           | .error (.crash w, st) => fail "crash" (ediags ++ ldiags ++ st.errs.toList) w
           | .error (.cycle, st) => fail "cycle" (ediags ++ ldiags ++ st.errs.toList) "cyclic definition"
